@@ -97,6 +97,7 @@ type jBScenario struct {
 	Deviant   int      `json:"deviant"`
 	Deviation string   `json:"deviation"`
 	Victims   []int    `json:"victims"`
+	Schedule  string   `json:"schedule"` // random (any pending message next, links are NOT FIFO) | a directed pattern "name X->Y"
 	Parties   []jParty `json:"parties"`
 	Stuck     bool     `json:"stuck"`
 	SignOK    bool     `json:"sign_ok"`   // every >= t subset of the honest Ok parties signs and verifies under the reported key
@@ -150,6 +151,8 @@ type world struct {
 	fresh    int64
 	dev      *deviation
 	delivers int
+	sched    *sched
+	seen     map[[3]int]bool // (from, to, tag) delivered at least once
 }
 
 func (w *world) gen() *math.G2 {
@@ -510,10 +513,51 @@ func (w *world) send(p *bparty, data []byte, bcast bool, to uint16) {
 	w.outgoing(p, cp, bcast, int(to))
 }
 
+// sched: a directed schedule on top of the random one.  Deliveries are never FIFO per link (any pending message may be
+// next); a pattern additionally HOLDS one message until another one has been delivered:
+//
+//	reveal-overtakes-commit  X's commitment reaches Y only after X's key (de-commitment) did
+//	share-after-commits      X's share reaches Y only after Y holds the commitments of all other parties
+//
+// Both are possible with honest parties only: a party emits its commitment / key independently of what the held message
+// unblocks at Y (holding a share until the same sender's KEY arrived would deadlock: the key needs Y's commitment).
+type sched struct {
+	pattern string
+	x, y    int
+}
+
+func (sc *sched) String() string {
+	if sc == nil {
+		return "random"
+	}
+	return sc.pattern + " " + string(rune('0'+sc.x)) + "->" + string(rune('0'+sc.y))
+}
+
+func (w *world) held(m *pmsg) bool {
+	sc := w.sched
+	if sc == nil || m.from != sc.x || m.to != sc.y || len(m.data) == 0 {
+		return false
+	}
+	switch sc.pattern {
+	case "reveal-overtakes-commit":
+		return m.data[0] == tagCommit && !w.seen[[3]int{sc.x, sc.y, tagReveal}]
+	case "share-after-commits":
+		if m.data[0] != tagShare {
+			return false
+		}
+		for _, q := range w.parties {
+			if q.id != sc.y && !w.seen[[3]int{q.id, sc.y, tagCommit}] {
+				return true
+			}
+		}
+	}
+	return false
+}
+
 func (w *world) enabled() []*pmsg {
 	var res []*pmsg
 	for _, m := range w.pending {
-		if !m.done && (m.after == nil || m.after.done) {
+		if !m.done && (m.after == nil || m.after.done) && !w.held(m) {
 			res = append(res, m)
 		}
 	}
@@ -610,6 +654,9 @@ func (w *world) deliver(m *pmsg) {
 	w.mu.Lock()
 	m.done = true
 	w.delivers++
+	if len(m.data) > 0 {
+		w.seen[[3]int{m.from, m.to, int(m.data[0])}] = true
+	}
 	target := w.parties[m.to-1]
 	w.observe(target, m.from, m.data)
 	w.mu.Unlock()
@@ -625,12 +672,16 @@ func (w *world) deliver(m *pmsg) {
 	}()
 }
 
-func runBScenario(id int, pkg string, n, t int, dv *deviation, seed uint64) jBScenario {
-	w := &world{pkg: pkg, n: n, t: t, comps: 1, rng: newPRNG(seed), keyExp: map[string][]*big.Int{}, commitOf: map[string]string{}, dev: dv}
+func runBScenario(id int, pkg string, n, t int, dv *deviation, seed uint64, sch ...*sched) jBScenario {
+	w := &world{pkg: pkg, n: n, t: t, comps: 1, rng: newPRNG(seed), keyExp: map[string][]*big.Int{}, commitOf: map[string]string{}, dev: dv,
+		seen: map[[3]int]bool{}}
+	if len(sch) > 0 {
+		w.sched = sch[0]
+	}
 	if pkg == "ps" {
 		w.comps = 3
 	}
-	sc := jBScenario{Kind: "bdkg", Pkg: pkg, ID: id, N: n, T: t, Deviation: "none", Victims: []int{}}
+	sc := jBScenario{Kind: "bdkg", Pkg: pkg, ID: id, N: n, T: t, Deviation: "none", Victims: []int{}, Schedule: w.sched.String()}
 	if dv != nil {
 		sc.Deviant, sc.Deviation = dv.party, dv.kind
 		for v := range dv.victims {
@@ -888,6 +939,73 @@ func victimSets(p *prng, n, deviant int, all bool) []map[int]bool {
 	return []map[int]bool{res[p.intn(len(honest))%len(res)], res[len(res)-1]}
 }
 
+// scheduleFamily: delivery schedules without per-link FIFO.  Directed cases (one per pattern and pair) plus random ones,
+// everybody honest and with a deviating participant.  Returns the next free scenario id.
+func scheduleFamily(r *prng, id int, pkg string, n, t int, thorough bool, byz bool) int {
+	var pairs [][2]int
+	for x := 1; x <= n; x++ {
+		for y := 1; y <= n; y++ {
+			if x != y {
+				pairs = append(pairs, [2]int{x, y})
+			}
+		}
+	}
+	for _, pat := range []string{"reveal-overtakes-commit", "share-after-commits"} {
+		sel := pairs
+		if !thorough {
+			sel = [][2]int{pairs[r.intn(len(pairs))]}
+		}
+		for _, pr := range sel {
+			id++
+			emit(runBScenario(id, pkg, n, t, nil, r.next(), &sched{pat, pr[0], pr[1]}))
+		}
+	}
+	randomRuns := 2
+	if thorough {
+		randomRuns = 6
+	}
+	for k := 0; k < randomRuns; k++ {
+		id++
+		emit(runBScenario(id, pkg, n, t, nil, r.next()))
+	}
+	if !byz || n < 3 {
+		return id
+	}
+	for _, kind := range []string{"offpoly", "dupgood", "revealfirst", "wrongreveal"} {
+		deviant := 1 + r.intn(n)
+		var honest []int
+		for i := 1; i <= n; i++ {
+			if i != deviant {
+				honest = append(honest, i)
+			}
+		}
+		x := honest[r.intn(len(honest))]
+		y := x
+		for y == x {
+			y = honest[r.intn(len(honest))]
+		}
+		pat := []string{"reveal-overtakes-commit", "share-after-commits"}[r.intn(2)]
+		if kind == "revealfirst" {
+			pat = "reveal-overtakes-commit" // holding a share until commitments that are themselves held back would just stall
+		}
+		id++
+		emit(runBScenario(id, pkg, n, t, &deviation{kind: kind, party: deviant, victims: map[int]bool{y: true}}, r.next(), &sched{pat, x, y}))
+	}
+	return id
+}
+
+// runSchedules: the schedule family alone, for one package (C08 uses it for mpc/ps)
+func runSchedules(r *prng, thorough bool, pkg string) {
+	nts := [][2]int{{3, 2}, {3, 3}, {4, 3}}
+	if thorough {
+		nts = [][2]int{{2, 2}, {3, 2}, {3, 3}, {4, 2}, {4, 3}, {4, 4}, {5, 3}}
+	}
+	id := 0
+	for _, nt := range nts {
+		id = scheduleFamily(r, id, pkg, nt[0], nt[1], thorough, true)
+	}
+}
+
 func runBackend(r *prng, thorough bool, only string) {
 	nts := [][2]int{{3, 2}, {3, 3}, {4, 2}, {4, 3}, {4, 4}}
 	pkgs := []string{"bls"}
@@ -933,8 +1051,18 @@ func runBackend(r *prng, thorough bool, only string) {
 			}
 		}
 	}
+	// schedules without per-link FIFO, directed and random, both packages
+	fam := [][2]int{{3, 2}, {4, 3}}
+	if thorough {
+		fam = nts
+	}
+	for _, pkg := range []string{"bls", "ps"} {
+		for _, nt := range fam {
+			id = scheduleFamily(r, id, pkg, nt[0], nt[1], thorough, only != "honest")
+		}
+	}
 	if !thorough {
-		// quick: a few PS scenarios as well (monitors only)
+		// quick: a few more PS scenarios
 		for _, kind := range []string{"none", "offpoly", "wrongreveal", "withhold-commit", "dupbad", "trunc-share"} {
 			if (only == "honest") != (kind == "none") && only != "all" {
 				continue
